@@ -230,6 +230,42 @@ def stackOps (prog : String) : List StkOp :=
   -- `> 0`: push the constant, compare (pop 2, push 1); OP_MATCH_RULE pops the result
   body ++ [.push, .pop, .pop, .push, .pop]
 
+/-! ### loops: stack profile of the code the compiler emits for `for <q> <vars> in <iterator> : ( body )` -/
+
+/-- one loop level: kind letter and size (`r` range, `R` empty range, `e<n>` enum, `a` array, `A` empty array,
+    `d` dictionary, `D` empty dictionary, `s<n>` string set (for..of), `t<n>` text string set) -/
+def parseLevels (shape : String) : List (Char × Nat) :=
+  (shape.splitOn ".").filterMap fun t =>
+    match t.toList with
+    | c :: rest => some (c, (String.ofList rest).toNat?.getD 0)
+    | [] => none
+
+def rep (n : Nat) (o : StkOp) : List StkOp := List.replicate n o
+
+/-- push/pop program of the loop nest (outer → inner), innermost body = one boolean -/
+def loopProg : List (Char × Nat) → List StkOp
+  | [] => [.push]                                            -- body: `true` / `$`
+  | (k, n) :: inner =>
+    let args : List StkOp := match k with
+      | 'r' | 'R' => [.push, .push]
+      | 'e' => rep n .push ++ [.push]
+      | 's' => [.push] ++ rep n .push ++ [.push]
+      | 't' => rep n .push ++ [.push]
+      | _ => [.push]                                         -- module array / dictionary object
+    let start : List StkOp := match k with
+      | 'r' | 'R' => [.pop, .pop, .push]
+      | 'e' | 't' => [.pop] ++ rep n .pop ++ [.push]
+      | 's' => [.pop] ++ rep n .pop ++ [.pop, .push]
+      | _ => [.pop, .push]
+    let isDict := k == 'd' || k == 'D'
+    let empty := k == 'R' || k == 'A' || k == 'D'
+    let next : List StkOp := [.pop, .push] ++ rep (if isDict then 3 else 2) .push
+    let vars : List StkOp := rep (if isDict then 2 else 1) .pop ++ [.pop]        -- OP_POP_M per variable, OP_JTRUE_P
+    let iter : List StkOp := if empty then [] else
+      loopProg inner ++ [.push, .push, .pop, .pop, .pop, .push, .push, .pop, .pop]
+    let fin : List StkOp := [.pop, .push, .push, .push, .pop, .pop, .pop, .push]
+    [.push, .pop] ++ args ++ start ++ next ++ vars ++ iter ++ fin
+
 def runScan (kv : KV) : String :=
   match getD kv "m" "" with
   | "matches" =>
@@ -250,6 +286,14 @@ def runScan (kv : KV) : String :=
     match vmRun Guards.spec (getNat kv "S" defaultStackSize) 0 (stackOps (getD kv "prog" "")) with
     | some _ => " OK S=OK S.res=r:1 sane=1"
     | none => " OK S=EXEC_STACK_OVERFLOW sane=1"
+  | "loopstack" =>
+    let levels := parseLevels (getD kv "shape" "")
+    -- rule r: the loop nest; rule q (shown): `r`; OP_MATCH_RULE pops the value of each condition
+    let prog := loopProg levels ++ [.pop] ++ [.push, .pop]
+    let allNonEmpty := levels.all fun (k, _) => !(k == 'R' || k == 'A' || k == 'D')
+    match vmRun Guards.spec (getNat kv "S" defaultStackSize) 0 prog with
+    | some _ => s!" OK S=OK S.res=q:{if allNonEmpty then 1 else 0} sane=1"
+    | none => " OK S=EXEC_STACK_OVERFLOW sane=1"
   | "timeout" => " OK S=SCAN_TIMEOUT sane=1"
   | _ => " UNMODELLED"
 
@@ -258,6 +302,18 @@ def handle (line : String) : String :=
   | id :: cmd :: rest =>
     let kv := parseKV rest
     let body := match cmd with
+      | "settimeout" =>
+        " " ++ " ".intercalate (((getD kv "s" "0").splitOn ",").filterMap fun t => t.toInt?.map fun v => s!"{v}:{specTimeoutNs v}")
+      | "scanseq" =>
+        -- one scanner, several scans; buffer 1 needs few fibers, buffer 2 more than the limit
+        let MAX := getNat kv "L" reMaxFibers
+        let needOf (w : String) : Nat := if w == "2" then getNat kv "need2" 0 else getNat kv "need1" 0
+        let seq := (getD kv "seq" "1").splitOn ","
+        let show1 (e : Option Err) : String := match e with | none => "OK" | some x => errName x
+        let fresh := fun (w : String) => show1 (reExec Guards.spec MAX (needOf w) ⟨0, 0, 0⟩).2
+        let outs := reExecSeq Guards.spec MAX ⟨0, 0, 0⟩ (seq.map needOf)
+        let steps := (outs.zipIdx.zip seq).map fun ((e, i), w) => s!"S{i + 1}={show1 e} S{i + 1}.same={if show1 e == fresh w then 1 else 0}"
+        s!" OK F1={fresh "1"} F2={fresh "2"} " ++ " ".intercalate steps ++ " sane=1"
       | "ml" => runMl kv
       | "fib" => runFib kv
       | "re" => runRe kv
